@@ -132,6 +132,23 @@ def check(run, M, tier):
         if len(rets) != 1 or not isinstance(rets[0].ret, T.Poly):
             raise Unrecognised("%s does not return a single boolean expression" % f.qual, f.node)
         dis = _disjuncts(rets[0].ret)
+        # `super()._done()` (an inherited stopping test called, not re-spelled) stands for the disjuncts the parent's _done returns
+        for _ in range(3):
+            exp = []
+            for d in dis:
+                da = d.single_atom()
+                if da is not None and da[0] == "app" and da[1].startswith("fn:") and da[1].endswith("._done") and not da[2]:
+                    pf = M.funcs.get(da[1][3:])
+                    if pf is not None and pf.qual != f.qual:
+                        _, pouts = vn_paths(M, pf, real=REAL)
+                        prets = [o for o in pouts if o.status == "return"]
+                        if len(prets) == 1 and isinstance(prets[0].ret, T.Poly):
+                            exp.extend(_disjuncts(prets[0].ret))
+                            continue
+                exp.append(d)
+            if len(exp) == len(dis) and all(a == b for a, b in zip(exp, dis)):
+                break
+            dis = exp
         run.check(any(d == bud for d in dis), "T2", f.qual, f.loc(), "contains the budget test iter >= max_iter",
                   "%s returns %s, which lacks the disjunct `self.iter >= self.max_iter` (the update budget can be exceeded)" % (f.qual, T.show(rets[0].ret, 200)),
                   stmt="T2:" + c.name)
@@ -182,10 +199,61 @@ def check(run, M, tier):
     _t4(run, M)
 
     # ---------------------------------------------------------------- T5
+    check_power_method(run, M, "T5")
+
+    # ---------------------------------------------------------------- T7
+    _t7(run, M, eff, algs)
+
+    # ---------------------------------------------------------------- breakdown detection of the one solver that has it
+    from . import c12
+    c12.check(run, M, tier)
+
+
+def check_power_method(run, M, rule):
+    """PowerMethod._update is the normalised power iteration (also used by C17: ESPIRiT's eigenvector maps are its iterate)"""
     pm = M.func("sigpy.alg.PowerMethod._update")
     _, code = vn_paths(M, pm, real=REAL)
     _, ref = vn_ref(REF_POWER.strip(), model=M, func=pm, real=REAL)
-    compare_with_reference(run, "T5", "PowerMethod._update", pm, code, ref, ["self.x", "self.max_eig"], "normalised power iteration")
+    compare_with_reference(run, rule, "PowerMethod._update", pm, code, ref, ["self.x", "self.max_eig"], "normalised power iteration")
+
+
+def _t7(run, M, eff, algs):
+    """"returns the solution the algorithm holds": the array the caller handed in as the solution (bound by the constructor, updated in place by
+    _update) stays the object the algorithm works on -- a later `self.x = ...` or `self.x, self.z = self.z, self.x` leaves the caller (and every
+    App._output that returns its own reference) with a stale array"""
+    run.rule("T7", "an attribute that a solver's constructor binds to a caller-supplied array and that its methods update in place is never rebound outside the constructor")
+    n = 0
+    for c in algs:
+        init = M.method(c, "__init__", inherit=False)
+        if init is None:
+            continue
+        given = set()
+        for node in ast.walk(init.node):
+            if isinstance(node, ast.Assign) and len(node.targets) == 1 and is_self_attr(node.targets[0]) and isinstance(node.value, ast.Name) \
+                    and node.value.id in init.params and node.value.id == node.targets[0].attr:
+                given.add(node.targets[0].attr)
+        inplace = set()
+        for name, f in c.methods.items():
+            sm = eff.of(f.qual)
+            inplace |= {a for a in given if sm.detail.get(("A", a))}
+        for a in sorted(given & inplace):
+            n += 1
+            bad = []
+            for name, f in sorted(c.methods.items()):
+                if name == "__init__":
+                    continue
+                for node in walk_no_nested(f.node):
+                    if isinstance(node, ast.Assign):
+                        for t in node.targets:
+                            for x in ([t] if not isinstance(t, (ast.Tuple, ast.List)) else t.elts):
+                                if is_self_attr(x, a):
+                                    bad.append((f, node))
+            if not bad:
+                run.ok("T7", "%s.%s" % (c.name, a), "bound once to the caller's array, then only updated in place", init.loc())
+            for f, node in bad:
+                run.bad("T7", "%s.%s" % (c.name, a), f.loc(node), "%s rebinds self.%s (`%s`): the array the caller passed as the solution stops receiving the iterate, so "
+                        "what the caller (or App._output) holds is no longer the solution the algorithm holds" % (f.qual, a, unparse(node)), stmt=node)
+    run.floor("T7", 4, n, "caller-supplied solution arrays")
 
 
 def _term(src):
